@@ -559,11 +559,31 @@ pub fn inject(cfg: &EmfCfg, e: &GenEntry, d: Defect, seed: u32, pos: u32) -> Opt
             ops.insert(at, Op::Config(CfgG::EntryDims(vec![])));
         }
         Defect::RepeatedEntryDims => {
-            let i = ops.iter().position(|o| matches!(o, Op::Config(CfgG::EntryDims(_))))?;
-            let c = ops[i].clone();
             let limit = ops.iter().position(is_dimensioned).unwrap_or(ops.len());
             let at = idx(pos, limit + 1);
-            ops.insert(at, c);
+            match ops.iter().position(|o| matches!(o, Op::Config(CfgG::EntryDims(_)))) {
+                Some(i) => {
+                    // the repetition is an identical copy, the neutral set list [[]] (one set naming
+                    // no dimension: it changes nothing, it is still a second configuration), or the
+                    // same list with its sets in reverse order
+                    let c = match (&ops[i], seed % 3) {
+                        (_, 1) => Op::Config(CfgG::EntryDims(vec![vec![]])),
+                        (Op::Config(CfgG::EntryDims(sets)), 2) => Op::Config(CfgG::EntryDims(sets.iter().rev().cloned().collect())),
+                        (c, _) => c.clone(),
+                    };
+                    ops.insert(at, c);
+                }
+                None => {
+                    // an entry without entry dimensions: the neutral list given twice, or the
+                    // neutral list followed by one naming a dimension the entry does write
+                    let second = match (seed % 2, cfg.dims.iter().flatten().next()) {
+                        (1, Some(n)) => vec![vec![n.clone()]],
+                        _ => vec![vec![]],
+                    };
+                    ops.insert(at, Op::Config(CfgG::EntryDims(second)));
+                    ops.insert(at, Op::Config(CfgG::EntryDims(vec![vec![]])));
+                }
+            }
         }
         Defect::LateEntryDims => {
             if cfg.allow_ignored {
